@@ -519,7 +519,7 @@ func checkProperty(rc *runCtx, p, tier string, seed int, verif string, bl Baseli
 			path := filepath.Join(verif, "replay", "bounded_"+p+"_"+br.Name+".json")
 			b, _ := json.MarshalIndent(br, "", " ")
 			os.WriteFile(path, b, 0o644)
-			viols = append(viols, viol{"bounded:" + br.Name, br.Status + ": " + strings.Join(br.Failures, " | "), path, br.Status == "bounded-fail"})
+			viols = append(viols, viol{"bounded:" + br.Name, br.Status + ": " + br.Summary + " first: " + firstOr(br.Failures), path, br.Status == "bounded-fail"})
 		}
 	}
 	for _, k := range known {
